@@ -878,7 +878,8 @@ def synth_recipe(r, profile="core"):
     """a fontbuild recipe: k letters (glyphs 1..k, in the cmap), a few extra glyphs that only substitutions produce;
     leaf lookups (deletion always among them) that are reached through contextual lookups and, sometimes, directly.
     profiles: `core` — sequences of at most one glyph, a deleting record is the last record of its rule;
-    `multi` — sequences of up to three glyphs; `drift` — any record order; `lig` — ligature leaves as well."""
+    `multi` — sequences of up to three glyphs; `drift` — any record order; `lig` — ligature leaves as well;
+    `rev` — `core` plus a ReverseChainSingleSubst lookup."""
     alpha = r.choice(sorted(ALPHABETS))
     first = ALPHABETS[alpha][0]
     k = r.range(3, 6)
@@ -935,6 +936,14 @@ def synth_recipe(r, profile="core"):
         lookups.append({"type": t, "flag": flag, "subtables": [sub]})
     if r.chance(1, 3):
         top.append(r.below(nleaf))          # a leaf also runs on its own, after / before the contextual lookups
+    if profile == "rev":
+        # ReverseChainSingleSubst can only be a top-level lookup ("no chaining to this type")
+        cov = _letters_cov(r, k)
+        top.append(len(lookups))
+        lookups.append({"type": 8, "flag": 0, "subtables": [{
+            "coverage": cov, "backtrack": [_letters_cov(r, k, 1, 4) for _ in range(r.range(0, 2))],
+            "lookahead": [_letters_cov(r, k, 1, 4) for _ in range(r.range(0, 2))],
+            "subst": [r.range(1, n - 1) for _ in cov]}]})
     feats = []
     order = r.shuffle(top)
     tags = r.sample(sorted(set(SYNTH_TAGS)), r.range(1, 2))
@@ -949,7 +958,7 @@ def synth_recipe(r, profile="core"):
 def recipe_traits(rec):
     """what a synthetic font can do that matters for the documented finding classes"""
     lk = rec["gsub"]["lookups"]
-    tr = {"has_lig": any(l["type"] == 4 for l in lk),
+    tr = {"has_lig": any(l["type"] == 4 for l in lk), "has_reverse": any(l["type"] == 8 for l in lk),
           "has_seq2": any(l["type"] == 2 and any(len(q) > 1 for st in l["subtables"] for q in st["sequences"]) for l in lk),
           "has_drift": False}
     for l in lk:
@@ -962,11 +971,11 @@ def recipe_traits(rec):
     return tr
 
 
-SYNTH_PROFILES = ["core", "core", "core", "core", "core", "multi", "drift", "lig"]
+SYNTH_PROFILES = ["core", "core", "core", "core", "core", "multi", "drift", "lig", "core", "rev"]
 
 
 def synth_groups(r, count, prefix="S"):
-    """font groups (same shape as FontSet.groups) of synthetic fonts, 5 in 8 of profile `core`"""
+    """font groups (same shape as FontSet.groups) of synthetic fonts, 6 in 10 of profile `core`"""
     groups = []
     i = 0
     while len(groups) < count:
@@ -988,6 +997,38 @@ def synth_groups(r, count, prefix="S"):
              "synthetic": True, "profile": profile, "recipe": rec}
         g.update(recipe_traits(rec))
         groups.append(g)
+    return groups + witness_groups(prefix + "w")
+
+
+_ABC = {0x61: 1, 0x62: 2, 0x63: 3}
+WITNESS_FONTS = {
+    # class: (recipe, text) — smallest inputs of the finding classes above, shaped left to right (the script's own direction)
+    "deleted-flag-carrier": ({"num_glyphs": 7, "cmap": _ABC, "gsub": {"features": [{"tag": "ccmp", "lookups": [1, 2]}], "lookups": [
+        {"type": 2, "flag": 0, "subtables": [{"coverage": [4], "sequences": [[]]}]},                       # delete x
+        {"type": 2, "flag": 0, "subtables": [{"coverage": [1], "sequences": [[4, 5]]}]},                   # a -> x y
+        {"type": 6, "flag": 0, "subtables": [{"format": 3, "backtrack": [[3]], "coverages": [[4]], "lookahead": [],
+                                              "lookups": [(0, 0)]}]}]}}, "ca"),                              # c x| -> delete x
+    "nested-delete-drift": ({"num_glyphs": 7, "cmap": _ABC, "gsub": {"features": [{"tag": "ccmp", "lookups": [2]}], "lookups": [
+        {"type": 2, "flag": 0, "subtables": [{"coverage": [2], "sequences": [[]]}]},                       # delete b
+        {"type": 1, "flag": 0, "subtables": [{"format": 2, "coverage": [3], "subst": [6]}]},               # c -> z
+        {"type": 5, "flag": 0, "subtables": [{"format": 3, "coverages": [[1], [2]], "lookups": [(1, 0), (1, 1)]}]}]}}, "abc"),
+    "reverse-chain-concat": ({"num_glyphs": 7, "cmap": _ABC, "gsub": {"features": [{"tag": "ccmp", "lookups": [0]}], "lookups": [
+        {"type": 8, "flag": 0, "subtables": [{"coverage": [3], "backtrack": [[1]], "lookahead": [], "subst": [6]}]}]}}, "abc"),
+}
+
+
+def witness_groups(prefix="W"):
+    groups = []
+    for cls, (rec, text) in sorted(WITNESS_FONTS.items()):
+        fid = f"{prefix}{len(groups)}"
+        c = SynthCase()
+        c.name, c.font, c.index, c.text = fid, f"synthetic:{fid}", 0, ""
+        c.dir, c.script, c.lang, c.flags, c.level, c.feats = None, "Latn", None, 0, 0, []
+        c.pre, c.post, c.extra, c.opts = "", "", [], ""
+        g = {"fid": fid, "reg": f"font {fid} {fontbuild.hexfont(rec)}", "cases": [c], "alphabet": list("abc"), "aat": False,
+             "synthetic": True, "profile": "witness:" + cls, "recipe": rec, "witness_text": text}
+        g.update(recipe_traits(rec))
+        groups.append(g)
     return groups
 
 
@@ -998,6 +1039,9 @@ def make_synth_shaping(r, g, flags, dirs=("l", "r", "t", "b"), levels=(0, 1)):
     s.text = "".join(r.choice(g["alphabet"]) for _ in range(r.range(2, 9)))
     s.clusters = rand_clusters(r, len(s.text), False)
     s.req_dir = r.choice(dirs)
+    if "witness_text" in g:
+        s.text, s.req_dir = g["witness_text"], "l"
+        s.clusters = list(range(len(s.text)))
     s.dir = s.req_dir
     s.script = s.case.script
     s.flags = flags | r.choice([0, 3, 3, 3])
@@ -1030,6 +1074,150 @@ def synth_known_class(s, kind="break"):
         return "nested-delete-drift"
     if g.get("has_seq2"):
         return "deleted-flag-carrier"
+    if kind == "concat" and g.get("has_reverse"):
+        return "reverse-chain-concat"
     if shaped_reversed(s) and g.get("has_lig"):
         return "reversed"
     return None
+
+
+# ------------------------------------------------------------------------------------------------
+# U+2044 FRACTION SLASH: ot_shape.rs::setup_masks_fraction turns <digits> U+2044 <digits> into numerator / fraction /
+# denominator feature ranges.  Whether a digit is shaped as part of a fraction depends on what stands on the other
+# side of the slash, so the boundaries around a slash with digits on at most one side, and the outer ends of a full
+# fraction, are places where re-joining text changes the result.
+
+FRACTION_SLASH = 0x2044
+
+
+def fraction_recipe(r):
+    """synthetic font with fraction features: glyphs = 5 digits, slash, 3 letters, then numerator / denominator / `frac`
+    forms of the digits and a fraction bar.  Which of frac / numr / dnom exist varies (the plan needs frac, or numr+dnom)"""
+    alpha = r.choice(["latin", "hebrew"])
+    first = ALPHABETS[alpha][0]
+    digits = list(range(0x30, 0x35))
+    cmap = {cp: 1 + j for j, cp in enumerate(digits)}
+    cmap[FRACTION_SLASH] = 6
+    cmap[0x20] = 7
+    letters = [first + j for j in range(3)]
+    for j, cp in enumerate(letters):
+        cmap[cp] = 8 + j
+    n = 11 + 16
+    numr = {g: 11 + g - 1 for g in range(1, 6)}
+    dnom = {g: 16 + g - 1 for g in range(1, 6)}
+    fr = {g: 21 + g - 1 for g in range(1, 6)}
+    fr[6] = 26
+    which = r.choice([("frac", "numr", "dnom"), ("numr", "dnom"), ("frac",), ("frac", "numr", "dnom")])
+    lookups, feats = [], []
+    for tag, m in (("frac", fr), ("numr", numr), ("dnom", dnom)):
+        if tag in which:
+            feats.append({"tag": tag, "lookups": [len(lookups)]})
+            lookups.append({"type": 1, "flag": 0, "subtables": [{"format": 2, "coverage": sorted(m), "subst": [m[g] for g in sorted(m)]}]})
+    rec = {"num_glyphs": n, "cmap": cmap, "advances": [300 + 11 * g for g in range(n)],
+           "gsub": {"features": feats, "lookups": lookups}}
+    return rec, alpha, digits, letters
+
+
+def fraction_groups(r, count, prefix="Q", shim=None):
+    """synthetic fraction fonts + every font under tests/fonts that names a fraction feature"""
+    groups = []
+    for i in range(count):
+        rec, alpha, digits, letters = fraction_recipe(r)
+        fid = f"{prefix}{i}"
+        c = SynthCase()
+        c.name, c.font, c.index, c.text = fid, f"synthetic:{fid}", 0, ""
+        c.dir, c.script, c.lang, c.flags, c.level, c.feats = None, ALPHABETS[alpha][1], None, 0, 0, []
+        c.pre, c.post, c.extra, c.opts = "", "", [], ""
+        groups.append({"fid": fid, "reg": f"font {fid} {fontbuild.hexfont(rec)}", "cases": [c], "aat": False,
+                       "alphabet": [chr(x) for x in letters], "digits": [chr(x) for x in digits],
+                       "synthetic": True, "profile": "fraction", "recipe": rec, "has_reverse": False})
+    root = os.path.join(vlib.REPO, "tests", "fonts")
+    k = 0
+    for dp, dn, fn in sorted(os.walk(root)):
+        for f in sorted(fn):
+            p = os.path.join(dp, f)
+            try:
+                data = open(p, "rb").read()
+            except OSError:
+                continue
+            if data[:4] == b"ttcf" or not (b"frac" in data or (b"numr" in data and b"dnom" in data)):
+                continue
+            tabs = sfnt_tables(p)
+            if "GSUB" not in tabs or "morx" in tabs:
+                continue
+            fid = f"{prefix}f{k}"; k += 1
+            c = SynthCase()
+            c.name, c.font, c.index, c.text = fid, p, 0, ""
+            c.dir, c.script, c.lang, c.flags, c.level, c.feats = None, "Latn", None, 0, 0, []
+            c.pre, c.post, c.extra, c.opts = "", "", [], ""
+            groups.append({"fid": fid, "reg": f"fontfile {fid} {p} 0", "cases": [c], "aat": False, "alphabet": ["a", "b", "x"],
+                           "digits": list("01234"), "synthetic": False, "has_reverse": gsub_has_reverse(data)})
+    return groups
+
+
+def gsub_has_reverse(data):
+    """does the font's GSUB contain a ReverseChainSingleSubst lookup (type 8, also behind an extension)?"""
+    try:
+        n = struct.unpack(">H", data[4:6])[0]
+        off = None
+        for i in range(n):
+            if data[12 + 16 * i:16 + 16 * i] == b"GSUB":
+                off = struct.unpack(">I", data[20 + 16 * i:24 + 16 * i])[0]
+        if off is None:
+            return False
+        g = data[off:]
+        u16 = lambda b, o: struct.unpack(">H", b[o:o + 2])[0]
+        L = g[u16(g, 8):]
+        for i in range(u16(L, 0)):
+            lk = L[u16(L, 2 + 2 * i):]
+            t = u16(lk, 0)
+            if t == 8:
+                return True
+            if t == 7 and u16(lk, 4) > 0 and u16(lk[u16(lk, 6):], 2) == 8:
+                return True
+    except Exception:
+        pass
+    return False
+
+
+def make_fraction_shaping(r, g, flags, dirs=("l", "r", "l", "r", "t", "b"), levels=(0, 1)):
+    """texts built from digit runs, U+2044, letters and spaces with at least one slash"""
+    toks = []
+    for _ in range(r.range(2, 6)):
+        k = r.below(8)
+        if k < 3: toks.append("".join(r.choice(g["digits"]) for _ in range(r.range(1, 2))))
+        elif k < 5: toks.append(chr(FRACTION_SLASH))
+        elif k < 7: toks.append(r.choice(g["alphabet"]))
+        else: toks.append(" ")
+    if chr(FRACTION_SLASH) not in toks:
+        toks.insert(r.below(len(toks) + 1), chr(FRACTION_SLASH))
+    s = Shaping()
+    s.g = g
+    s.case = g["cases"][0]
+    s.text = "".join(toks)
+    s.clusters = rand_clusters(r, len(s.text), False)
+    s.req_dir = r.choice(dirs)
+    s.dir = s.req_dir
+    s.script = s.case.script
+    s.flags = flags | r.choice([0, 3, 3, 3])
+    s.level = r.choice(levels)
+    s.extra = []
+    s.pre, s.post = "", ""
+    s.subset = None
+    s.line = None
+    return s
+
+
+KNOWN_CLASSES["reverse-chain-concat"] = (
+    "ReverseChainSingleSubst (GSUB/reverse_chain_single_subst.rs, same in HarfBuzz): when the BACKTRACK does not match, "
+    "`end_index` is still 0 and unsafe_to_concat_from_outbuffer(start_index, 0) flags the empty span — the glyph and the "
+    "backtrack glyph it inspected stay free of UNSAFE_TO_CONCAT (e.g. Linefont.ttf <1, X, 2> with X unmapped: joining "
+    "<1> and <2> forms the contextual pair)")
+
+
+def fraction_known_class(s, kind="break"):
+    if s.g.get("synthetic"):
+        return "reversed" if shaped_reversed(s) else None
+    if kind == "concat" and s.g.get("has_reverse"):
+        return "reverse-chain-concat"
+    return known_class(s, kind)
